@@ -36,8 +36,67 @@ pub fn no_standalone_pair(t: &Ty, inside_list: bool) -> bool {
     }
 }
 
+/// Is parameter `k` of the data type only ever used as the element type of a list? Then
+/// instantiating it with a Pair yields `List<Pair<..>>` fields, which the blueprint knows (as maps).
+fn param_only_under_list(adt: &AdtDecl, k: usize) -> bool {
+    fn ok(t: &Ty, k: usize, under_list: bool) -> bool {
+        match t {
+            Ty::Var(j) => *j != k || under_list,
+            Ty::List(e) => ok(e, k, true),
+            Ty::Opt(e) => ok(e, k, false),
+            Ty::Pair(a, b) => ok(a, k, false) && ok(b, k, false),
+            Ty::Tuple(ts) => ts.iter().all(|t| ok(t, k, false)),
+            // nested instantiations: only when the parameter does not occur in them at all
+            Ty::Adt(_, ts) => ts.iter().all(|t| !mentions(t, k)),
+            Ty::Fn(a, r) => a.iter().all(|t| !mentions(t, k)) && !mentions(r, k),
+            _ => true,
+        }
+    }
+    fn mentions(t: &Ty, k: usize) -> bool {
+        match t {
+            Ty::Var(j) => *j == k,
+            Ty::List(e) | Ty::Opt(e) => mentions(e, k),
+            Ty::Pair(a, b) => mentions(a, k) || mentions(b, k),
+            Ty::Tuple(ts) | Ty::Adt(_, ts) => ts.iter().any(|t| mentions(t, k)),
+            Ty::Fn(a, r) => a.iter().any(|t| mentions(t, k)) || mentions(r, k),
+            _ => false,
+        }
+    }
+    adt.ctors.iter().all(|c| c.fields.iter().all(|(_, t)| ok(t, k, false)))
+}
+
+/// Like `no_standalone_pair`, but a Pair may also instantiate a type parameter that the data
+/// type only uses as a list element (`type Bag<a> { items: List<a> }` at `Bag<Pair<Int, Int>>`).
+pub fn interface_type_ok(m: &Module, t: &Ty, inside_list: bool) -> bool {
+    match t {
+        Ty::Pair(a, b) => inside_list && interface_type_ok(m, a, false) && interface_type_ok(m, b, false),
+        Ty::List(e) => interface_type_ok(m, e, true),
+        Ty::Opt(e) => interface_type_ok(m, e, false),
+        Ty::Tuple(ts) => ts.iter().all(|t| interface_type_ok(m, t, false)),
+        Ty::Adt(i, ts) => ts.iter().enumerate().all(|(k, t)| match t {
+            Ty::Pair(a, b) => m.adts.get(*i).map(|adt| param_only_under_list(adt, k)).unwrap_or(false) && interface_type_ok(m, a, false) && interface_type_ok(m, b, false),
+            t => interface_type_ok(m, t, false),
+        }),
+        Ty::Fn(..) | Ty::Var(_) => false,
+        _ => true,
+    }
+}
+
 pub fn adt_fields_ok(m: &Module) -> bool {
-    m.adts.iter().all(|a| a.ctors.iter().all(|c| c.fields.iter().all(|(_, t)| no_standalone_pair(t, false) || matches!(t, Ty::Var(_)))))
+    // type parameters may occur anywhere in a field; what they are instantiated with is judged
+    // where the instantiation happens
+    fn field_ok(t: &Ty, inside_list: bool) -> bool {
+        match t {
+            Ty::Var(_) => true,
+            Ty::Pair(a, b) => inside_list && field_ok(a, false) && field_ok(b, false),
+            Ty::List(e) => field_ok(e, true),
+            Ty::Opt(e) => field_ok(e, false),
+            Ty::Tuple(ts) | Ty::Adt(_, ts) => ts.iter().all(|t| field_ok(t, false)),
+            Ty::Fn(..) => false,
+            _ => true,
+        }
+    }
+    m.adts.iter().all(|a| a.ctors.iter().all(|c| c.fields.iter().all(|(_, t)| field_ok(t, false))))
 }
 
 /// One mutation somewhere in the tree.
@@ -157,14 +216,34 @@ fn judge(src: &mut Src, st: &mut Stats) -> CheckResult {
     g.gen_adts_pub();
     let mut t = g.ty(3);
     for _ in 0..4 {
-        if no_standalone_pair(&t, false) {
+        if interface_type_ok(&g.m, &t, false) {
             break;
         }
         t = g.ty(2);
     }
-    if !no_standalone_pair(&t, false) || !adt_fields_ok(&g.m) {
+    // a generic data type whose parameter is only a list element, instantiated with a Pair
+    if g.src.chance(1, 5) {
+        let idx = g.m.adts.len();
+        let name = format!("G{idx}");
+        let elem = if g.src.chance(1, 4) { Ty::list(Ty::list(Ty::Var(0))) } else { Ty::list(Ty::Var(0)) };
+        let ctors = match g.src.below(3) {
+            0 => vec![Ctor { name: format!("{name}A"), fields: vec![(Some("items".to_string()), elem), (Some("n".to_string()), Ty::Int)] }],
+            1 => vec![Ctor { name: format!("{name}A"), fields: vec![] }, Ctor { name: format!("{name}B"), fields: vec![(None, Ty::Int), (None, elem)] }],
+            _ => vec![Ctor { name: format!("{name}A"), fields: vec![(None, elem.clone())] }, Ctor { name: format!("{name}B"), fields: vec![(None, Ty::opt(Ty::Int)), (None, elem)] }],
+        };
+        g.m.adts.push(AdtDecl { name, params: 1, ctors, opaque: false, public: true, tags: vec![] });
+        let (a, b) = (g.ty(1), g.ty(1));
+        let cand = Ty::Adt(idx, vec![Ty::pair(a, b)]);
+        if interface_type_ok(&g.m, &cand, false) {
+            t = cand;
+        }
+    }
+    if !interface_type_ok(&g.m, &t, false) || !adt_fields_ok(&g.m) {
         st.class("skipped:standalone-pair");
         return Ok(());
+    }
+    if matches!(&t, Ty::Adt(_, ts) if ts.iter().any(|t| matches!(t, Ty::Pair(..)))) {
+        st.class("type:generic-instantiated-with-a-pair");
     }
     // values of the type, before the module is taken out of the generator
     let nvals = 10;
